@@ -386,7 +386,7 @@ func fStep(prof FProfile) func(t *rapid.T, w *world.World) world.Action {
 			}
 		case "errack":
 			// a byzantine consumer answers the next validator-set packet with an error acknowledgement; an honest
-			// relayer carries it to the provider
+			// relayer carries it to the provider (a power change and an epoch come first if nothing is in flight)
 			for _, id := range f.Order {
 				p := f.Paths[id]
 				pending := false
@@ -395,13 +395,25 @@ func fStep(prof FProfile) func(t *rapid.T, w *world.World) world.Action {
 						pending = true
 					}
 				}
-				if pending && !p.C.Halted && rapid.IntRange(0, 1).Draw(t, "errackhere") == 0 {
+				_, open := w.P.PApp.ProviderKeeper.GetConsumerIdToChannelId(w.P.Ctx(), id)
+				launched := w.P.PApp.ProviderKeeper.GetConsumerPhase(w.P.Ctx(), id) == world.PhLaunched
+				if (pending || (open && launched)) && !p.C.Halted && rapid.IntRange(0, 1).Draw(t, "errackhere") == 0 {
+					if !pending {
+						bpe := w.P.PApp.ProviderKeeper.GetBlocksPerEpoch(w.P.Ctx())
+						w.Agenda = append(w.Agenda, world.Action{Kind: world.KDelegate, Sender: "bob", Val: w.ValOrder[1], Amount: int64(rapid.IntRange(1, 4).Draw(t, "errdel")) * 1_000_000})
+						for b := int64(0); b <= bpe; b++ {
+							w.Agenda = append(w.Agenda, world.Action{Kind: world.KBlock, Dt: 1e9})
+						}
+					}
 					w.Agenda = append(w.Agenda,
+						world.Action{Kind: world.KRawAck, Chain: id},
 						world.Action{Kind: world.KBlock, Chain: id, Dt: 1e9},
 						world.Action{Kind: world.KBlock, Chain: id, Dt: 1e9},
-						world.Action{Kind: world.KRelay, Consumer: id, Relay: &world.RelaySpec{Op: "ack", Dir: "p2c", K: 1}},
+						world.Action{Kind: world.KRelay, Consumer: id, Relay: &world.RelaySpec{Op: "ack", Dir: "p2c", K: 4}},
 						world.Action{Kind: world.KBlock, Dt: 2e9})
-					return world.Action{Kind: world.KRawAck, Chain: id}
+					a := w.Agenda[0]
+					w.Agenda = w.Agenda[1:]
+					return a
 				}
 			}
 		case "unjail":
